@@ -143,6 +143,37 @@ def gen_cases(tier, seed):
             shells = [{"l": lb_[0], "c": [float(v) for v in A], "e": [ea], "k": [[1.0]], "t": "c"}, {"l": lb_[1], "c": [float(v) for v in A], "e": [ea], "k": [[1.0]], "t": "c"},
                       {"l": lk_[0], "c": [float(v) for v in Bc], "e": [ec], "k": [[1.0]], "t": "c"}, {"l": lk_[1], "c": [float(v) for v in Bc], "e": [ec], "k": [[1.0]], "t": "c"}]
             cases.append({"kind": "kernel", "shells": shells, "classes": ["boys-window", "boysT:%d" % T, "ls:%d%d%d%d" % (lb_ + lk_)], "cost": 300})
+    # displaced copies: a pair (and the whole quartet) on nearly coincident centres, also far from the origin
+    for i in range(12 if tier == "quick" else 80):
+        rng = bases.rng_for("C04", seed, tier, "displaced", i)
+        la, lb, lc, ld = (int(x) for x in rng.integers(0, 3, size=4))
+        p1, c1 = bases.displaced_pair(rng, la, lb, emax=10.0)
+        p2, c2 = bases.displaced_pair(rng, lc, ld, emax=10.0)
+        if i % 2:
+            off = np.array(p1[0]["c"]) - np.array(p2[0]["c"]) + rng.normal(size=3) * 0.8
+            for s_ in p2:
+                s_["c"] = [float(v) for v in np.array(s_["c"]) + off]
+        shells = [dict(s_, t="c", k=[[r[0]] for r in s_["k"]]) for s_ in (p1 + p2)]
+        order = [shells[0], shells[1], shells[2], shells[3]] if i % 4 < 2 else [shells[0], shells[2], shells[1], shells[3]]
+        cases.append({"kind": "kernel", "shells": order, "classes": sorted(set(c1 + c2)) + ["ls:%d%d%d%d" % tuple(s_["l"] for s_ in order)], "cost": 60})
+    # long contractions: 17..33 primitives in one shell (ANO / even-tempered style)
+    for i in range(6 if tier == "quick" else 40):
+        rng = bases.rng_for("C04", seed, tier, "longK", i)
+        K = int(rng.choice([17, 20, 31, 33]))
+        ls = [int(x) for x in rng.integers(0, 3, size=4)]
+        if sum(ls) == 0:
+            ls[1] = 1
+        centers, gcls = bases.rand_centers(rng, 4, None, scale=0.9)
+        shells = []
+        for j, (l, c) in enumerate(zip(ls, centers)):
+            if j == i % 4:
+                e = [float(x) for x in np.exp(np.linspace(np.log(0.15), np.log(8.0), K))]
+                s_ = {"l": l, "c": c, "e": e, "k": bases.rand_coeffs(rng, l, e, 1), "t": "c"}
+            else:
+                s_ = bases.rand_shell(rng, l, K=1, M=1, t="c", center=c, emin=0.3, emax=4.0)
+                s_.pop("_cls")
+            shells.append(s_)
+        cases.append({"kind": "kernel", "shells": shells, "classes": [gcls, "longK:%d" % K, "ls:%d%d%d%d" % tuple(ls)], "cost": 40 * K})
     # ill-conditioned list, all pair arrangements
     rng = bases.rng_for("C04", "ill")
     cen = [[0.0, 0.0, 0.0], [0.0, 0.0, 0.0], [0.9, 0.3, -0.4], [0.9, 0.3, -0.4]]
